@@ -16,6 +16,8 @@ from __future__ import annotations
 import copy
 import typing as t
 
+from hypothesis import strategies as st
+
 from ..core import Suite, Ctx, triage_exception
 from .. import tg, gen
 from ..codec import short
@@ -26,7 +28,7 @@ ID = 'C08'
 RULE = ("Hypothesis: every error tree produced by the C07 generator (so: reachable trees only). Non-trivial = the tree has depth >= 3, "
         "or contains a sum inside a product inside a sum, a cause, a duplicate-key node, or missing/extra fields; distinct by (type spec, value).")
 ASSUMPTIONS = [
-    "determinism is checked within one process (set-held 'missing'/'unexpected' lines may be ordered differently under another PYTHONHASHSEED)",
+    "determinism: rendering twice and rendering a deep copy within one process; batches of failing conversions are also rendered in fresh interpreters under two other PYTHONHASHSEED values",
     "integers are bounded to 1000 digits (CPython refuses to print larger ones)",
 ]
 
@@ -130,7 +132,7 @@ def check(case: t.Any, ctx: Ctx) -> None:
         except Exception as e:
             ctx.fail('render-total', type(e).__name__, f"{ident}; rendering a deep copy of the tree raised {type(e).__name__}")
             return
-        if sorted(tc.splitlines()) != sorted(text.splitlines()):   # set-held lines (missing / unexpected) may come in another order
+        if tc != text:
             ctx.fail('render-deterministic', nd.kind, f"{ident}; a deep copy of the tree renders differently")
 
     # complete
@@ -146,8 +148,10 @@ def check(case: t.Any, ctx: Ctx) -> None:
             miss = find_in_order(text, [*path[:-1], str(n.key)])
             return f"duplicate key {n.key!r} under path {path} is not named (missing {miss!r})" if miss else None
         exp = str(n.expected)
-        # the statement asks for the expectation of every *leaf*; intermediate products may be fused into 'a.b.c'
-        miss = find_path(text, path) if isinstance(n, ProductErrorNode) else find_path(text, path, exp)
+        # the statement asks for the expectation of every *leaf*; intermediate products may be fused into 'a.b.c'.
+        # A product without children (it only lacks fields / has unknown keys) is a leaf of the tree: what was expected there must be said.
+        is_inner = isinstance(n, ProductErrorNode) and len(n.children) > 0
+        miss = find_path(text, path) if is_inner else find_path(text, path, exp)
         if miss is not None:
             return f"path {'.'.join(path) or '<root>'} with expectation {exp!r}: {miss!r} does not occur in nesting order"
         if isinstance(n, ProductErrorNode):
@@ -194,10 +198,61 @@ def check(case: t.Any, ctx: Ctx) -> None:
             ctx.fail('render-complete', nd.kind, f"{ident}; a sum is rendered without any offending value\n{text[:400]}")
 
 
+# ---- the same failure renders to the same text in every interpreter run -----------------------------------------------
+#
+# str hashes differ between interpreter runs (PYTHONHASHSEED), and with them the iteration order of every set of names.
+# A batch of generated failing conversions is rendered here and in fresh interpreters started with other hash seeds;
+# type, value and code being equal, the message must be equal.
+
+@st.composite
+def batch_cases(draw, specs: st.SearchStrategy[t.Any]) -> t.Any:
+    return [draw(multi_fault_cases(specs)) for _ in range(20)]
+
+
+def _many_names(case: t.Any) -> bool:
+    from ..errtree import own_tree
+    from pane.errors import ProductErrorNode
+
+    def walk(tr: t.Any) -> bool:
+        if isinstance(tr, ProductErrorNode):
+            return len(tr.missing) >= 2 or len(tr.extra) >= 2 or any(walk(c) for c in tr.children.values())
+        return any(walk(c) for c in getattr(tr, 'children', []) or []) if isinstance(getattr(tr, 'children', None), list) else False
+    try:
+        tr = own_tree(tg.node(case[0]), case[1])
+    except Exception:
+        return False
+    return tr is not None and walk(tr)
+
+
+def check_batch(batch: t.Any, ctx: Ctx) -> None:
+    from .. import hashseed
+    here = hashseed.render_batch(batch)
+    rejected = [i for (i, x) in enumerate(here) if x is not None]
+    ctx.label(f"batch-rejected:{min(len(rejected) // 5 * 5, 20)}")
+    ctx.nontrivial(any(_many_names(batch[i]) for i in rejected))
+    if not rejected:
+        return
+    for hs in (101, 202):
+        there = hashseed.render_elsewhere(batch, hs)
+        ctx.evaluated(len(rejected))
+        for i in rejected:
+            if there[i] != here[i]:
+                a = (here[i] or '').splitlines()
+                b = (there[i] or '<accepted>').splitlines()
+                diff = next(((x, y) for (x, y) in zip(a, b) if x != y), (a[-1:] or [''], b[-1:] or ['']))
+                klass = 'set-of-names-order' if sorted(a) == sorted(b) else 'content'
+                ctx.fail('deterministic', f"across-hash-seeds:{klass}",
+                         f"T = {tg.node(batch[i][0]).render()[:300]}; v = {short(batch[i][1], 150)}; the message differs between two interpreter runs "
+                         f"(PYTHONHASHSEED {hs} vs this one): first differing line {diff[0]!r} vs {diff[1]!r}", case=[batch[i]])
+                return
+
+
 def suites(tier: str) -> t.List[Suite]:
     big = tier == 'thorough'
     leaves = 8 if big else 4
     return [
         Suite('render', check, strategy=lambda: multi_fault_cases(gen.all_type_specs(leaves)), examples=8000 if big else 600,
               budget_s=480 if big else 40, render=gen.render_case),
+        Suite('across-hash-seeds', check_batch, strategy=lambda: batch_cases(gen.all_type_specs(leaves)), examples=40 if big else 4,
+              budget_s=300 if big else 30, render=lambda b: {'batch_of': len(b), 'first': gen.render_case(b[0])}),
     ]
